@@ -563,6 +563,9 @@ def _exec_c10(sc, ctx, env):
         elif l1 == "hardlink":
             if len(data) and (stat.S_ISLNK(lst.st_mode) or lst.st_ino != REAL["os.lstat"](cpath).st_ino):
                 ctx.violate("relink-wrong-type", f"want-hardlink:{disc}", f"{rel}: not the cache object's inode")
+            elif not len(data) and stat.S_ISLNK(lst.st_mode):
+                # an empty file is never hard-linked (a fresh empty file is created), but it must not stay a symlink
+                ctx.violate("relink-wrong-type", f"want-hardlink:empty-file-still-symlink:{disc}", rel)
         elif l1 == "symlink":
             if not stat.S_ISLNK(lst.st_mode) or os.readlink(fp) != cpath:
                 ctx.violate("relink-wrong-type", f"want-symlink:{disc}", f"{rel}: {os.readlink(fp) if stat.S_ISLNK(lst.st_mode) else 'not a symlink'}")
